@@ -236,6 +236,7 @@ func crossImportCase(col *Collector, rng *rand.Rand, fa, fb string, emptyMain, v
 }
 
 func runC16(col *Collector, tier string, seed int64) {
+	loaderReuseCases(col, "C16", []string{"yaml", "json", "toml"}, []string{"missing", "unparsable"})
 	rng := rand.New(rand.NewSource(seed))
 	col.res.Rule = "abstract configurations from the grammar of every documented key (string-or-list fields in both forms, durations, booleans, nested maps, watchers, contexts) serialised with yaml.v2 / encoding/json / go-toml; " +
 		"the real loader's native types (probe), the decoded definition (JSON dump) and the binary's list / show / graph / run outputs compared pairwise; integers and booleans where strings are expected; imports across formats. " +
